@@ -33,7 +33,10 @@ EXPLANATION = (
     "are those of C04. T5: in genc.c and ccode.c the value of every call that returns a CCode is used (assigned, passed on, "
     "returned or tested) or explicitly cast to void; one frozen exception (frozen/c03_effect_calls.json). T6: the interpreter registers assigned by the expansion of "
     "stackFrameFree (normal return) are all among the registers that fintSaveState stores and fintRestoreState reloads (the state "
-    "kept at a try block), and the two functions mention the same (field, register) pairs. Not decided: equality of outputs on programs.")
+    "kept at a try block), and the two functions mention the same (field, register) pairs. T7: the precedence column of the infix rows of ccoInfoTable orders every pair of "
+    "operators as the C grammar does and the left-to-right flag is false exactly for assignments; ccoPrExpr prints the operands of an "
+    "infix node with iPrec + !isLtoR / iPrec + isLtoR and separates a prefix operator from an operand that is itself a prefix "
+    "expression. Not decided: equality of outputs on programs.")
 
 FROZEN = os.path.join(os.path.dirname(__file__), "frozen")
 INTERP_CHAIN = ["fintStmt", "fintEval_", "fintGetReference"]
@@ -279,6 +282,70 @@ def t6(rep):
     rep.floor("interpreter registers restored by a normal return", len(frame), 12)
 
 
+def t7(rep):
+    """The C pretty-printer parenthesises as the C grammar requires."""
+    from . import prectab
+    f = common.extract("ccode.c", trees=["ccoPrExpr"])
+    rec = f.records.get("cco_info")
+    if rec is None:
+        raise AnalysisBroken("struct cco_info not found")
+    fields = [x[0] for x in rec["f"]]
+    rows, assoc = [], {}
+    for r in common.table_rows(f.var("ccoInfoTable")):
+        g = dict(zip(fields, r["c"]))
+        if enum_name(g["kind"]) == "CCOK_Infix":
+            rows.append((enum_name(g["tag"]), string_value(g["str"]), const_value(g["precedence"])))
+            assoc[enum_name(g["tag"])] = (string_value(g["str"]) or "").strip(), const_value(g["isLeftToRight"])
+    bad, n = prectab.inconsistent_pairs(rows)
+    rep.floor("infix operators in ccoInfoTable", n, 25)
+    for n1, s1, p1, n2, s2, p2 in bad:
+        rep.violation("T7", "precedence:%s~%s" % (n1, n2), "ccode.c (ccoInfoTable %s / %s)" % (n1, n2),
+                      "`%s` has precedence %d and `%s` has %d, which orders them differently from the C grammar: the printer omits "
+                      "parentheses the C compiler needs (a | b ^ c for (a | b) ^ c), so the executable computes something else than "
+                      "the interpreter" % (s1, p1, s2, p2))
+    if not bad:
+        rep.ok("T7", "precedence-table-follows-grammar", sample={"operators": n})
+    wrong = [t for t, (s_, ltr) in assoc.items() if s_ in prectab.GRAMMAR and (prectab.GRAMMAR[s_] == 2) == bool(ltr)]
+    if wrong:
+        rep.violation("T7", "associativity", "ccode.c (ccoInfoTable)", "left-to-right flag wrong for %s (assignments associate to the right, every other binary operator to the left)" % wrong)
+    else:
+        rep.ok("T7", "associativity")
+    # shape of the printer: operands of an infix node get iPrec + (0|1) by associativity; a prefix operator directly followed by a
+    # prefix operand is separated
+    fn = f.func("ccoPrExpr")
+    sw = [x for x in walk(fn["body"]) if x["k"] == "SwitchStmt" and strip(x["c"][0]) is not None and strip(x["c"][0]).get("n") == "kind"]
+    if len(sw) != 1:
+        raise AnalysisBroken("ccoPrExpr: switch over the operator kind not found")
+    groups = {l[0]: g for g in common.switch_cases(sw[0]) for l in g["labels"]}
+    gi = groups.get("CCOK_Infix")
+    gp = groups.get("CCOK_Prefix")
+    if gi is None or gp is None:
+        raise AnalysisBroken("ccoPrExpr: cases CCOK_Infix / CCOK_Prefix not found")
+    precs = []
+    for st in gi["stmts"]:
+        for c in common.calls(st, "ccoPrExpr"):
+            precs.append(common.render(strip(c["c"][2])))
+    if len(precs) == 2 and "isLtoR" in precs[0] and "isLtoR" in precs[1] and ("!" in precs[0]) != ("!" in precs[1]):
+        rep.ok("T7", "infix-operand-precedence", sample={"left": precs[0], "right": precs[1]})
+    else:
+        rep.violation("T7", "infix-operand-precedence", "ccode.c:%d (ccoPrExpr)" % gi["line"],
+                      "the two operands of an infix node must be printed with precedence iPrec + !isLtoR and iPrec + isLtoR; found %s" % precs)
+    sep = False
+    for st in gp["stmts"]:
+        for x in walk(st):
+            if x["k"] == "IfStmt" and any(y["k"] == "DeclRefExpr" and y["n"] == "CCOK_Prefix" for y in walk(x["c"][0])):
+                sep = True
+        for c in common.calls(st, "ccoPrExpr"):
+            if "+" in common.render(strip(c["c"][2])):
+                sep = True
+    if sep:
+        rep.ok("T7", "prefix-operand-separated")
+    else:
+        rep.violation("T7", "prefix-operand-separated", "ccode.c:%d (ccoPrExpr)" % gp["line"],
+                      "a prefix operator is written directly in front of its operand even when that operand starts with a prefix operator: "
+                      "-(-x) is printed as --x, which C reads as a pre-decrement")
+
+
 def run(tier, only=None):
     rep = common.Report("C03", tier, EXPLANATION)
     f_fint = common.extract("fint.c", trees=INTERP_CHAIN + ["fintInitForeignGlobValue"])
@@ -289,6 +356,7 @@ def run(tier, only=None):
     t3(rep, f_fint)
     t5(rep)
     t6(rep)
+    t7(rep)
     try:
         t4(rep, tier)
     except AnalysisBroken as e:
